@@ -488,6 +488,8 @@ def pipeline_oracle(ck: Check):
         ("xsd", {"s.xsd": W_XSD_ENUM}, {}), ("json", {"s.json": '{"1a": 1, "value_1a": 2}'}, {}),
         ("json", {"s.json": '{"": 1}'}, {}), ("xml", {"s.xml": "<r><\u0378>1</\u0378></r>"}, {}),
         ("json", {"s.json": '{"a\\"b": {"x": 1}}'}, {}), ("xsd", {"s.xsd": W_XSD_BYTES}, {}),
+        ("xsd", {"s.xsd": W_XSD_F13}, {}), ("xsd", {"s.xsd": W_XSD_F16}, {}), ("xsd", {"s.xsd": W_XSD_F20}, {}),
+        ("xsd", {"s.xsd": W_XSD_F14}, {"generic_collections": True}),
     ]
     for kind, src, opt in fixed:
         jobs.append({"sources": src, "options": opt, "kind": kind, "features": ["witness"]})
@@ -538,6 +540,19 @@ W_XSD_NONETYPE = _xsd(_ct("None", ["x"]) + _ct("NoneType", ["y"]))
 W_XSD_ENUM = _xsd('<xs:simpleType name="E"><xs:restriction base="xs:string"><xs:enumeration value="1a"/><xs:enumeration value="value_1a"/>'
                   '</xs:restriction></xs:simpleType>' + _ct("T", ["class", "class_value"]))
 W_XSD_BYTES = _xsd(_ct("T", ["x"], [], '<xs:attribute name="bytes" type="xs:string" default="x"/><xs:attribute name="b" type="xs:base64Binary"/>'))
+
+
+W_XSD_F13 = ('<xs:schema xmlns:xs="http://www.w3.org/2001/XMLSchema" xmlns:p="urn:a" targetNamespace="urn:a"><xs:element name="r"><xs:complexType>'
+             '<xs:sequence><xs:element name="e" type="p:T"/></xs:sequence></xs:complexType></xs:element><xs:complexType name="T" mixed="true">'
+             '<xs:sequence><xs:element name="m"><xs:complexType/></xs:element></xs:sequence><xs:attribute name="q" type="xs:string" '
+             'use="prohibited"/></xs:complexType></xs:schema>')
+_INNER = '<xs:element name="%s"><xs:complexType><xs:sequence><xs:element name="x" type="xs:string"/></xs:sequence></xs:complexType></xs:element>'
+W_XSD_F16 = _xsd('<xs:complexType name="T"><xs:sequence>' + _INNER % "a" + _INNER % "A" + '</xs:sequence></xs:complexType>')
+W_XSD_F20 = _xsd('<xs:simpleType name="U"><xs:union memberTypes="xs:hexBinary xs:int xs:time"/></xs:simpleType><xs:element name="root">'
+                 '<xs:complexType><xs:simpleContent><xs:extension base="U"><xs:attribute name="a" type="xs:string"/></xs:extension>'
+                 '</xs:simpleContent></xs:complexType></xs:element>')
+W_XSD_F14 = _xsd(_ct("Sequence", ["x"]) + '<xs:complexType name="T"><xs:sequence><xs:element name="y" type="xs:string" maxOccurs="unbounded"/>'
+                 '<xs:element name="s" type="Sequence"/></xs:sequence></xs:complexType>')
 
 
 def run(ck: Check):
